@@ -1,14 +1,15 @@
 """C19 — the artifact's keys, file and contents always agree.
 
 Tie: correspondence. Random operation sequences (write / load / remove / replace / clear_cache / reopen /
-load through an Artifact with filter terms, with a stream of operations the artifact must reject) run on a
-real `Artifact` on a scratch `.hdf` file; after EVERY operation the harness records `art.keys`,
-`hdf.get_keys(file)`, the bare groups of the file, a second `Artifact` opened on the same path and the
-data every reported key loads (through the artifact itself or through the second one). The same lines go
-to Driver/C19.lean (Model/Artifact.lean: an HDF tree with path aliasing, `Keys`, `Artifact`, filter terms)
-and everything is compared exactly. Data are compared through canonical forms (type, index names, column
-names, rows of typed scalars; dtype object/str ignored) and identified by their position in the case's
-data table.
+load through a third Artifact with filter terms, with a stream of operations the artifact must reject) run on a
+real `Artifact` on a scratch `.hdf` file. The artifact that PERFORMS the operations is opened – and re-opened –
+with or without filter terms (row terms on index levels of the stored tables, draw selections, terms on absent
+columns). After EVERY operation the harness records `art.keys`, `hdf.get_keys(file)`, the bare groups of the
+file, a second, UNFILTERED `Artifact` opened on the same path and the data every reported key loads through it,
+and (probe mode `self`) the view every key loads through the acting artifact itself. The same lines go to
+Driver/C19.lean (Model/Artifact.lean: an HDF tree with path aliasing, `Keys`, `Artifact`, filter terms, `FArt`)
+and everything is compared exactly. Data are compared through canonical forms (type, index names, column names,
+rows of typed scalars; dtype object/str ignored) and identified by their position in the case's data table.
 
 Oracle (the property, independent of the Lean model): a key -> data dictionary kept by the harness says
 which operations must be refused and what every key must load; keys reported = keys loadable = keys of the
@@ -211,10 +212,11 @@ def _digest(path):
         return hashlib.md5(f.read()).hexdigest()
 
 
-def _observe(art, path, mode, ident, memo=None):
-    """keys, hdf.get_keys, bare groups, a second Artifact on the path, load of every reported key.
-    `memo` (unless the case asks for full observations): what is a function of the file's bytes alone
-    (everything but art.keys and loads through `art`) is re-used while the bytes have not changed."""
+def _observe(art, path, mode, ident, view, memo=None):
+    """keys, hdf.get_keys, bare groups, a second UNFILTERED Artifact on the path and what every reported key
+    loads through it; in `self` mode also what every key loads through the acting artifact (its filter terms,
+    its cache). `memo` (unless the case asks for full observations): what is a function of the file's bytes
+    alone (everything but art.keys and loads through `art`) is re-used while the bytes have not changed."""
     from vivarium.framework.artifact import Artifact, hdf
     import tables
     o = {"keys": [str(k) for k in art.keys]}
@@ -250,29 +252,38 @@ def _observe(art, path, mode, ident, memo=None):
     for k in o["keys"]:
         if k == KS:
             continue
-        if mode == "fresh" and o["fresh"] == "err":
+        if o["fresh"] == "err":
             loads[k] = "nofresh"
             continue
-        if mode == "fresh" and reuse is not None and k in reuse["fresh_loads"]:
+        if reuse is not None and k in reuse["fresh_loads"]:
             loads[k] = reuse["fresh_loads"][k]
             continue
-        if mode == "fresh" and fresh is None:
+        if fresh is None:
             fresh = Artifact(path)
         try:
-            loads[k] = ident((art if mode == "self" else fresh).load(k))
+            loads[k] = ident(fresh.load(k))
         except Exception:  # noqa: BLE001
             loads[k] = "err"
     o["loads"] = loads
     if memo is not None:
         fl = dict(reuse["fresh_loads"]) if reuse is not None else {}
-        if mode == "fresh":
-            fl.update(loads)
+        fl.update(loads)
         memo["obs"] = {"file": o["file"], "groups": o["groups"], "fresh": o["fresh"], "fresh_loads": fl}
         if "fresh_exc" in o:
             memo["obs"]["fresh_exc"] = o["fresh_exc"]
         h_after = _digest(path)
         # a second Artifact that repaired the file (no key space node) invalidates what was read before it
         memo["h"] = h_after if reuse is not None or h_after == h_before else None
+    o["self"] = None
+    if mode == "self":
+        o["self"] = {}
+        for k in o["keys"]:
+            if k == KS:
+                continue
+            try:
+                o["self"][k] = view(art.load(k))
+            except Exception:  # noqa: BLE001
+                o["self"][k] = "err"
     return o
 
 
@@ -291,10 +302,15 @@ def _run(case):
             c = json.dumps(canon(x), sort_keys=True)
             return ["d", cstr.index(c)] if c in cstr else ["unknown", c[:200]]
 
-        art = Artifact(path)
+        def view(x):
+            """what the acting artifact hands out: tables as they are (its filter terms shape them), the rest by id"""
+            c = canon(x)
+            return ["filtered", c] if c["t"] in ("frame", "series") else ["data", ident(x)]
+
+        art = Artifact(path, filter_terms=[render_term(t) for t in case.get("terms") or []] or None)
         mode = case["probe"]
         memo = None if case.get("fullobs") else {}
-        out = {"init": _observe(art, path, mode, ident, memo), "ops": []}
+        out = {"init": _observe(art, path, mode, ident, view, memo), "ops": []}
         for op in case["ops"]:
             rec = {"out": "ok"}
             try:
@@ -306,11 +322,11 @@ def _run(case):
                 elif kind == "remove":
                     art.remove(op[1])
                 elif kind == "load":
-                    rec["out"] = ["data", ident(art.load(op[1]))]
+                    rec["out"] = view(art.load(op[1]))
                 elif kind == "clear":
                     art.clear_cache()
                 elif kind == "reopen":
-                    art = Artifact(path)
+                    art = Artifact(path, filter_terms=[render_term(t) for t in op[1]] or None)
                 elif kind == "fload":
                     terms = [render_term(t) for t in op[2]]
                     rec["terms"] = terms
@@ -321,9 +337,7 @@ def _run(case):
                         rec["exc"] = type(e).__name__
                         a3 = None
                     if a3 is not None:
-                        x = a3.load(op[1])
-                        c = canon(x)
-                        rec["out"] = ["filtered", c] if c["t"] in ("frame", "series") else ["data", ident(x)]
+                        rec["out"] = view(a3.load(op[1]))
                 else:
                     raise ValueError(f"harness: unknown op {kind}")
             except Exception as e:  # noqa: BLE001
@@ -331,7 +345,7 @@ def _run(case):
                     raise
                 rec["out"] = "err"
                 rec["exc"] = type(e).__name__
-            rec["obs"] = _observe(art, path, mode, ident, memo)
+            rec["obs"] = _observe(art, path, mode, ident, view, memo)
             out["ops"].append(rec)
         return out
     finally:
@@ -371,10 +385,12 @@ class C19(Prop):
             return [self._json(rng, depth + 1) for _ in range(rng.randint(0, 3))]
         return {f"k{j}": self._json(rng, depth + 1) for j in range(rng.randint(0, 3))}
 
-    def _index(self, rng, n, single_int=False):
+    def _index(self, rng, n, single_int=False, prefer=None):
         nlev = 1 if single_int else rng.choice([1, 2, 2, 3])
+        if prefer is not None and nlev == 1 and rng.random() < 0.7:
+            nlev = 2        # only the levels of a MultiIndex can be addressed by name in a `where` term
         base = rng.sample(range(0, 8), n)
-        names = [rng.choice(INT_LEVELS)]
+        names = [prefer if prefer is not None and rng.random() < 0.75 else rng.choice(INT_LEVELS)]
         cols = [base]
         for _ in range(nlev - 1):
             kind = rng.choice(["int", "int", "str", "float"])
@@ -392,9 +408,9 @@ class C19(Prop):
             names.append(nm)
         return names, [[c[r] for c in cols] for r in range(n)]
 
-    def _frame(self, rng):
-        n = rng.randint(1, 5)
-        names, rows = self._index(rng, n)
+    def _frame(self, rng, prefer=None):
+        n = rng.randint(1, 5) if prefer is None else rng.randint(3, 6)
+        names, rows = self._index(rng, n, prefer=prefer)
         ncols = rng.choice([0, 1, 1, 2, 3])
         cols = []
         for c in rng.sample(["value", "draw_0", "draw_1", "name", "flag", "age_end"], ncols):
@@ -409,19 +425,36 @@ class C19(Prop):
             cols.append([c, v])
         return {"t": "frame", "names": names, "index": rows, "cols": cols}
 
-    def _series(self, rng):
+    def _series(self, rng, prefer=None):
         n = rng.randint(1, 5)
-        names, rows = self._index(rng, n)
+        names, rows = self._index(rng, n, prefer=prefer)
         vals = [float(rng.randint(0, 6)) for _ in range(n)] if rng.random() < 0.6 else [rng.randint(0, 6) for _ in range(n)]
         return {"t": "series", "names": names, "index": rows, "name": "value", "values": vals}
 
-    def _good(self, rng):
+    def _good(self, rng, prefer=None):
         r = rng.random()
-        if r < 0.4:
+        if r < (0.4 if prefer is None else 0.25):
             return {"t": "json", "v": self._json(rng)}
         if r < 0.85:
-            return self._frame(rng)
-        return self._series(rng)
+            return self._frame(rng, prefer)
+        return self._series(rng, prefer)
+
+    def _acting(self, rng):
+        """filter terms for the artifact that performs the operations: a row term on an index level name (values
+        in the middle of the generated range, so that it usually excludes some rows and keeps some), a draw
+        selection, a term on a column that exists nowhere – at least one of them; never two draw terms"""
+        col = rng.choice(INT_LEVELS)
+        ts = []
+        if rng.random() < 0.7:
+            ts.append(["atom", col, rng.choice(["ge", "gt", "le", "lt", "ne", "eq"]), rng.randint(2, 5)])
+        if rng.random() < 0.35:
+            style = rng.choice(["eq", "eq1", "in"])
+            ts.append(["draws", [rng.randint(0, 1)] if style != "in" else rng.sample(range(3), rng.randint(1, 2)), style])
+        if rng.random() < 0.2 or not ts:
+            ts.append(["atom", rng.choice(sorted(NOWHERE)), "eq", 1] if ts or rng.random() < 0.5
+                      else ["atom", col, rng.choice(["ge", "le"]), rng.randint(2, 5)])
+        rng.shuffle(ts)
+        return ts, col
 
     def _term(self, rng, depth=0):
         r = rng.random()
@@ -444,6 +477,8 @@ class C19(Prop):
         nested = rng.random() < 0.35
         pool = rng.sample(FLAT, rng.randint(2, 4)) + (rng.sample(NEST, rng.randint(2, 4)) if nested else [])
         data, ops, have = [], [], []            # `have`: keys the generator believes are present (bias only)
+        acting, pref = (self._acting(rng) if rng.random() < 0.45 else ([], None))
+        state = {"pref": pref}                  # index level name the acting artifact's row term addresses (bias only)
 
         def D(spec):
             data.append(spec)
@@ -456,9 +491,23 @@ class C19(Prop):
         def present():
             return rng.choice(have) if have else rng.choice(pool)
 
+        def G():
+            return self._good(rng, state["pref"])
+
+        def reopen_op():
+            r = rng.random()
+            if r < 0.4:
+                t, c = [], None
+            elif r < 0.85:
+                t, c = self._acting(rng)
+            else:
+                t, c = self._terms(rng), state["pref"]        # any terms, possibly two draw terms (the constructor refuses)
+            state["pref"] = c
+            return ["reopen", t]
+
         def do_write(k=None):
             k = k or absent()
-            ops.append(["write", k, D(self._good(rng))])
+            ops.append(["write", k, D(G())])
             if k not in have:
                 have.append(k)
 
@@ -476,45 +525,61 @@ class C19(Prop):
                 if k in have:
                     have.remove(k)
             elif r < 0.48:
-                ops.append(["replace", present(), D(self._good(rng))])
+                ops.append(["replace", present(), D(G())])
             elif r < 0.52:
                 ops.append(["clear"])
             elif r < 0.57:
-                ops.append(["reopen"])
+                ops.append(reopen_op())
             elif r < 0.66:
                 ops.append(["fload", present() if rng.random() < 0.9 else absent(), self._terms(rng)])
             elif r < 0.78:     # scenarios in which one mechanism is the only thing between the code and a violation
                 k = present()
-                s = rng.randint(0, 4)
-                if s == 0:
-                    ops += [["load", k], ["replace", k, D(self._good(rng))], ["load", k]]
+                s = rng.choice([0, 1, 2, 3, 4, 5, 5])
+                if s == 5:     # what the acting artifact's filter terms hide must survive a refused replace
+                    k2 = absent()
+                    if state["pref"] is None:
+                        t, c = self._acting(rng)
+                        state["pref"] = c
+                        ops.append(["reopen", t])
+                    bad = (D({"t": "zerorow", "v": rng.choice(["df", "cols", "series", "indexed"])}) if rng.random() < 0.5
+                           else D({"t": "badframe", "v": rng.choice(["sets", "mixed"])}))
+                    ops += [["write", k2, D(self._frame(rng, state["pref"]))], ["replace", k2, bad], ["load", k2]]
+                    if rng.random() < 0.5:
+                        ops += [["clear"], ["load", k2]]
+                    else:
+                        ops.append(reopen_op())
+                        ops.append(["load", k2])
+                    if k2 not in have:
+                        have.append(k2)
+                elif s == 0:
+                    ops += [["load", k], ["replace", k, D(G())], ["load", k]]
                 elif s == 1:
-                    ops += [["load", k], ["remove", k], ["write", k, D(self._good(rng))], ["load", k]]
+                    ops += [["load", k], ["remove", k], ["write", k, D(G())], ["load", k]]
                     if k not in have:
                         have.append(k)
                 elif s == 2:
                     k2 = absent()
-                    ops += [["write", k2, D(self._good(rng))], ["reopen"], ["load", k2]]
+                    ops += [["write", k2, D(G())], reopen_op(), ["load", k2]]
                     if k2 not in have:
                         have.append(k2)
                 elif s == 3:
                     k2 = absent()
                     ops += [["write", k2, D({"t": "unser", "v": rng.choice(["set", "object", "nested", "bytes", "key"])})],
-                            ["write", k2, D(self._good(rng))]]
+                            ["write", k2, D(G())]]
                     if k2 not in have:
                         have.append(k2)
                 else:
-                    ops += [["remove", k], ["reopen"], ["write", k, D(self._good(rng))]]
+                    ops += [["remove", k], reopen_op(), ["write", k, D(G())]]
                     if k not in have:
                         have.append(k)
             else:              # the stream of operations that must be refused
                 s = rng.randint(0, 15)
                 if s == 0:
-                    ops.append(["write", present(), D(self._good(rng))])                      # duplicate write
+                    ops.append(["write", present(), D(G())])                      # duplicate write
                 elif s == 1:
                     ops.append(["remove", absent()])
                 elif s == 2:
-                    ops.append(["replace", absent(), D(self._good(rng))])
+                    ops.append(["replace", absent(), D(G())])
                 elif s == 3:
                     ops.append(["load", absent()])
                 elif s == 4:
@@ -522,11 +587,11 @@ class C19(Prop):
                 elif s == 5:
                     ops.append(["replace", present(), None])
                 elif s == 6:
-                    ops.append(["write", rng.choice(MALFORMED), D(self._good(rng))])
+                    ops.append(["write", rng.choice(MALFORMED), D(G())])
                 elif s == 7:
                     ops.append([rng.choice(["remove", "load"]), rng.choice(MALFORMED)])
                 elif s == 8:
-                    ops.append(["replace", rng.choice(MALFORMED), D(self._good(rng))])
+                    ops.append(["replace", rng.choice(MALFORMED), D(G())])
                 elif s == 9:
                     ops.append(["write", absent(), D({"t": "unser", "v": rng.choice(["set", "object", "nested", "bytes", "key"])})])
                 elif s == 10:
@@ -545,10 +610,10 @@ class C19(Prop):
                     if k not in have:
                         have.append(k)
                 elif s == 14:      # the bookkeeping key is not the user's
-                    ops.append(["remove", KS] if rng.random() < 0.5 else ["replace", KS, D(self._good(rng))])
+                    ops.append(["remove", KS] if rng.random() < 0.5 else ["replace", KS, D(G())])
                 else:
-                    ops.append(["write", KS, D(self._good(rng))] if rng.random() < 0.5 else ["load", KS])
-        case = {"probe": rng.choice(["self", "fresh"]), "data": data, "ops": ops}
+                    ops.append(["write", KS, D(G())] if rng.random() < 0.5 else ["load", KS])
+        case = {"probe": rng.choice(["self", "fresh"]), "terms": acting, "data": data, "ops": ops}
         if tier == "thorough" or rng.random() < 0.2:
             case["fullobs"] = True        # observe from scratch after every operation (no re-use while the file's bytes are unchanged)
         return case
@@ -573,14 +638,14 @@ class C19(Prop):
                                 ["write", "a..b", 1], ["write", "", 1], ["write", "t.u", 2], ["write", "t.u", 1], ["remove", "n.o"],
                                 ["replace", "n.o", 1], ["load", "n.o"], ["replace", "x.y", None], ["replace", "x.y", 2], ["write", "z.z", 3],
                                 ["remove", "a"], ["load", ""], ["replace", "a.b.", 1], ["load", "x.y"], ["load", KS], ["write", KS, 1],
-                                ["remove", "x.y"], ["write", "x.y", 4], ["load", "x.y"], ["reopen"], ["load", "x.y"]]})
+                                ["remove", "x.y"], ["write", "x.y", 4], ["load", "x.y"], ["reopen", []], ["load", "x.y"]]})
         # every data shape: write, reopen, load, replace by another shape, clear, load, remove, write again
         for mode, shapes in (("self", [F, E, S]), ("fresh", [F1, E1, JD])):
             ops = []
             for j, _ in enumerate(shapes):
                 k = ["p.q.r", "p.q.s", "m.n"][j]
                 ops += [["write", k, j], ["load", k]]
-            ops += [["reopen"], ["load", "p.q.r"], ["load", "m.n"], ["replace", "p.q.r", 1], ["load", "p.q.r"], ["clear"], ["load", "p.q.r"],
+            ops += [["reopen", []], ["load", "p.q.r"], ["load", "m.n"], ["replace", "p.q.r", 1], ["load", "p.q.r"], ["clear"], ["load", "p.q.r"],
                     ["remove", "p.q.s"], ["load", "p.q.s"], ["write", "p.q.s", 2], ["load", "p.q.s"]]
             out.append({"probe": mode, "data": shapes, "ops": ops})
         # stale cache candidates: load, replace / remove + write, load again
@@ -618,8 +683,18 @@ class C19(Prop):
         # the bookkeeping key as a target: refused (F20, repaired)
         out.append({"probe": "fresh", "data": [J([1]), J([2])],
                     "ops": [["write", "k.l", 0], ["replace", KS, 1], ["load", KS], ["write", "k.m", 1], ["remove", KS], ["write", "k.n", 1],
-                            ["remove", "k.l"], ["reopen"], ["write", KS, 0], ["reopen"]]})
-        out.append({"probe": "self", "data": [J([1])], "ops": [["remove", KS], ["write", "k.l", 0], ["reopen"]]})
+                            ["remove", "k.l"], ["reopen", []], ["write", KS, 0], ["reopen", []]]})
+        out.append({"probe": "self", "data": [J([1])], "ops": [["remove", KS], ["write", "k.l", 0], ["reopen", []]]})
+        # operations PERFORMED by artifacts opened with filter terms: what the terms hide must not be touched, every
+        # refusal kind under terms; observations stay unfiltered (second artifact, file scan) + the filtered view
+        for mode, terms, k in (("self", [T("i", "ge", 2)], "p.q.r"), ("fresh", [["draws", [1], "eq"]], "d.w"),
+                               ("fresh", [T("j", "eq", 5), ["draws", [0], "in"]], "p.q"), ("self", [T("zz", "eq", 1)], "n.w")):
+            out.append({"probe": mode, "terms": terms, "data": [F, Z, B, J([1]), U, F1, S],
+                        "ops": [["write", k, 0], ["load", k], ["replace", k, 1], ["load", k], ["replace", k, 2], ["clear"], ["load", k],
+                                ["write", k, 5], ["write", "t.u", None], ["write", "t", 3], ["write", "t.u", 4], ["write", "t.u", 1], ["write", "t.u", 2],
+                                ["remove", "n.o"], ["replace", "n.o", 3], ["replace", k, None], ["replace", k, 4], ["remove", KS], ["load", "n.o"],
+                                ["reopen", []], ["load", k], ["reopen", [T("j", "eq", 5)]], ["load", k], ["replace", k, 1], ["replace", k, 6], ["load", k],
+                                ["reopen", [["draws", [0], "eq"], ["draws", [1], "eq"]]], ["remove", k], ["write", k, 5], ["reopen", terms], ["load", k]]})
         for c in out:
             if not any(op[0] == "fload" for op in c["ops"]):
                 c["fullobs"] = True
@@ -627,12 +702,23 @@ class C19(Prop):
 
     def shrink(self, case):
         ops = case["ops"]
+        for n in (len(ops) // 4, len(ops) // 2, 3 * len(ops) // 4):      # truncations first: most failures are early
+            if 0 < n < len(ops):
+                yield dict(case, ops=ops[:n])
         for i in range(len(ops) - 1, -1, -1):
             yield dict(case, ops=ops[:i] + ops[i + 1:])
         for i, op in enumerate(ops):
             if op[0] == "fload" and len(op[2]) > 1:
                 for j in range(len(op[2])):
                     yield dict(case, ops=ops[:i] + [["fload", op[1], op[2][:j] + op[2][j + 1:]]] + ops[i + 1:])
+        if case.get("terms"):
+            yield dict(case, terms=[])
+            for j in range(len(case["terms"])):
+                if len(case["terms"]) > 1:
+                    yield dict(case, terms=case["terms"][:j] + case["terms"][j + 1:])
+        for i, op in enumerate(ops):
+            if op[0] == "reopen" and op[1]:
+                yield dict(case, ops=ops[:i] + [["reopen", []]] + ops[i + 1:])
         if case["probe"] == "self":
             yield dict(case, probe="fresh")
 
@@ -641,6 +727,10 @@ class C19(Prop):
         return _run(case)
 
     # ------------------------------------------------------------------ model
+    @staticmethod
+    def _terms_tok(terms):
+        return ";".join(",".join(rpn(t)) for t in terms) if terms else "-"
+
     def model_lines(self, case, obs):
         L = []
         for i, s in enumerate(case["data"]):
@@ -654,6 +744,8 @@ class C19(Prop):
                 L.append(f"data {i} table {','.join(qc) if qc else '-'} {rows} {','.join(cols) if cols else '-'} {1 if emp else 0}")
             else:
                 L.append(f"data {i} {s['t']}")
+        if case.get("terms"):
+            L.append(f"op reopen {self._terms_tok(case['terms'])}")     # the acting artifact is created with filter terms
         L.append(f"obs {case['probe']}")
         for op in case["ops"]:
             k = op[0]
@@ -661,16 +753,31 @@ class C19(Prop):
                 L.append(f"op {k} k={op[1]} {'none' if op[2] is None else op[2]}")
             elif k in ("load", "remove"):
                 L.append(f"op {k} k={op[1]}")
-            elif k in ("clear", "reopen"):
-                L.append(f"op {k}")
+            elif k == "clear":
+                L.append("op clear")
+            elif k == "reopen":
+                L.append(f"op reopen {self._terms_tok(op[1])}")
             else:
-                ts = ";".join(",".join(rpn(t)) for t in op[2]) if op[2] else "-"
-                L.append(f"fload k={op[1]} {ts}")
+                L.append(f"fload k={op[1]} {self._terms_tok(op[2])}")
             L.append(f"obs {case['probe']}")
         return L
 
-    @staticmethod
-    def _parse_obs(reply, first):
+    def _model_view(self, s, data, first):
+        """the model's rendering of what an artifact hands out, in the harness' form"""
+        if s in ("err", "nofresh"):
+            return s
+        if s.startswith("keys:"):
+            return ["data", ["keys", s[5:].split("+")]]
+        if s.startswith("blob:"):
+            return ["data", ["d", first[int(s[5:])]]]
+        if s.startswith("tbl:") and s.count(":") == 3:
+            _, d, r, c = s.split(":")
+            rows = [] if r[1:] == "-" else [int(x) for x in r[1:].split("+")]
+            cols = [] if c[1:] == "-" else c[1:].split("+")
+            return ["filtered", self._project(spec_canon(data[int(d)]), rows, cols)]
+        return ["model-says", s]
+
+    def _parse_obs(self, reply, data, first):
         f = dict(x.split("=", 1) for x in reply.split(" "))
         lst = lambda s: [] if s == "-" else s.split(",")                        # noqa: E731
 
@@ -684,8 +791,14 @@ class C19(Prop):
         for e in lst(f["loads"]):
             k, v = e.split("=", 1)
             loads[k] = node(v)
+        selfv = None
+        if f["self"] != "-" or False:
+            selfv = {}
+            for e in lst(f["self"]):
+                k, v = e.split("=", 1)
+                selfv[k] = self._model_view(v, data, first)
         return {"keys": lst(f["keys"]), "file": sorted(lst(f["file"])), "groups": sorted(lst(f["groups"])),
-                "fresh": "err" if f["fresh"] == "err" else lst(f["fresh"]), "loads": loads}
+                "fresh": "err" if f["fresh"] == "err" else lst(f["fresh"]), "loads": loads, "self": selfv}
 
     def compare(self, case, obs, replies):
         dis = []
@@ -696,50 +809,32 @@ class C19(Prop):
             if r != "ok":
                 dis.append(f"data line #{i}: model says {r}")
         pos = nd
+        if case.get("terms"):
+            if replies[pos] != "ok":
+                dis.append(f"creating the acting artifact with terms {case['terms']}: model says {replies[pos]}")
+            pos += 1
 
         def cmp_obs(where, o, reply):
-            m = self._parse_obs(reply, first)
-            for fld in ("keys", "file", "groups", "fresh", "loads"):
+            m = self._parse_obs(reply, data, first)
+            if case["probe"] == "self" and m["self"] is None:
+                m["self"] = {}
+            for fld in ("keys", "file", "groups", "fresh", "loads", "self"):
                 if o[fld] != m[fld]:
-                    dis.append(f"{where}: {fld}: impl {o[fld]} model {m[fld]}")
+                    dis.append(f"{where}: {fld}: impl {json.dumps(o[fld])[:300]} model {json.dumps(m[fld])[:300]}")
         cmp_obs("initial state", obs["init"], replies[pos])
         pos += 1
         for i, (op, rec) in enumerate(zip(case["ops"], obs["ops"])):
             r = replies[pos]
             where = f"op #{i} {op[:2]}"
             out = rec["out"]
-            if op[0] == "fload":
-                if out == "ctor-err" or out == "err":
-                    want = "ctor-err" if out == "ctor-err" else "rejected"
-                    if r != want:
-                        dis.append(f"{where}: impl {out} model {r}")
-                elif out[0] == "data":
-                    exp = ("keys:" if out[1][0] == "keys" else "blob:")
-                    if not r.startswith(exp) or (out[1][0] == "d" and first[int(r.split(":")[1])] != out[1][1]):
-                        dis.append(f"{where}: impl {out} model {r}")
-                else:
-                    if not r.startswith("tbl:"):
-                        dis.append(f"{where}: impl returned a table, model {r}")
-                    else:
-                        t = r.split(" ")
-                        di = int(t[0][4:])
-                        rows = [] if t[1][5:] == "-" else [int(x) for x in t[1][5:].split(",")]
-                        cols = [] if t[2][5:] == "-" else t[2][5:].split(",")
-                        want = self._project(spec_canon(data[di]), rows, cols)
-                        if want != out[1]:
-                            dis.append(f"{where} terms {rec.get('terms')}: impl {json.dumps(out[1])[:300]} model rows {rows} cols {cols} of data {di}")
+            if out in ("ok", "err", "ctor-err"):
+                want = {"ok": "ok", "err": "rejected", "ctor-err": "ctor-err"}[out]
+                if r != want:
+                    dis.append(f"{where}: impl {out} ({rec.get('exc')}) model {r}")
             else:
-                if out == "ok" or out == "err":
-                    if r != ("ok" if out == "ok" else "rejected"):
-                        dis.append(f"{where}: impl {out} ({rec.get('exc')}) model {r}")
-                else:
-                    m = r.split(" ")
-                    if m[0] != "data":
-                        dis.append(f"{where}: impl {out} model {r}")
-                    else:
-                        got = ["keys", m[1][5:].split("+")] if m[1].startswith("keys:") else ["d", first[int(m[1].split(":")[1])]]
-                        if got != out[1]:
-                            dis.append(f"{where}: impl {out} model {r}")
+                mv = self._model_view(r[5:] if r.startswith("data ") else r, data, first)
+                if mv != out:
+                    dis.append(f"{where} {rec.get('terms', '')}: impl {json.dumps(out)[:300]} model {r}")
             cmp_obs(where + " state after", rec["obs"], replies[pos + 1])
             pos += 2
         return dis
@@ -773,7 +868,7 @@ class C19(Prop):
         def fail(i, key, base, msg):
             fails.append({"sig": self._sig(case, i, key, base), "msg": f"op #{i} {case['ops'][i][:2] if i >= 0 else 'init'}: {msg}"})
 
-        def check_state(i, o, exp):
+        def check_state(i, o, exp, terms):
             ks = o["keys"]
             user = [k for k in ks if k != KS]
             if ks.count(KS) != 1 or len(set(ks)) != len(ks):
@@ -797,13 +892,19 @@ class C19(Prop):
                     fail(i, k, "listed-key-not-loadable", f"{k} is reported but load raises")
                 elif k in exp and got != ["d", exp[k]]:
                     fail(i, k, "load-differs-from-written", f"{k}: loads {got}, last written data {exp[k]}")
+            for k, got in (o.get("self") or {}).items():      # the same keys through the acting artifact and its filter terms
+                if got == "err":
+                    fail(i, k, "listed-key-not-loadable", f"{k} is reported but load through the acting artifact (terms {terms}) raises")
+                elif k in exp:
+                    self._check_filter(i, k, terms, got, canons[exp[k]], exp[k], fail)
 
         exp = {}                    # key -> data id (first equal id): what the property says is stored
-        check_state(-1, obs["init"], exp)
+        cur_terms = list(case.get("terms") or [])      # filter terms of the acting artifact
+        check_state(-1, obs["init"], exp, cur_terms)
         prev = obs["init"]
         for i, (op, rec) in enumerate(zip(case["ops"], obs["ops"])):
             kind, out, o = op[0], rec["out"], rec["obs"]
-            key = op[1] if len(op) > 1 else None
+            key = op[1] if len(op) > 1 and kind != "reopen" else None
             must_reject = None      # None: no requirement
             new_exp = dict(exp)
             if kind in ("write", "replace"):
@@ -834,8 +935,8 @@ class C19(Prop):
                 elif not must_reject and key != KS:
                     if not accepted:
                         fail(i, key, "listed-key-not-loadable", f"load of a written key raises {rec.get('exc')}")
-                    elif out[1] != ["d", exp[key]]:
-                        fail(i, key, "load-differs-from-written", f"load returns {out[1]}, last written data {exp[key]}")
+                    else:
+                        self._check_filter(i, key, cur_terms, out, canons[exp[key]], exp[key], fail)
             if kind == "fload" and out != "ctor-err":
                 if must_reject and accepted:
                     fail(i, key, "accepts-invalid-op", f"filtered load of a key never written returns {str(out)[:80]}")
@@ -858,7 +959,9 @@ class C19(Prop):
                     fail(i, key, base, f"{what}: bare groups of the file were {g0} now {g1}")
             if kind in MUTATING and accepted and not must_reject:
                 exp = new_exp
-            check_state(i, o, exp)
+            if kind == "reopen" and accepted:
+                cur_terms = list(op[1])
+            check_state(i, o, exp, cur_terms)
             if len(fails) > n_before or (kind in MUTATING and accepted == bool(must_reject)):
                 # adopt the observed state as the new baseline, so that one defect is reported where it happens
                 # and what follows is judged on its own
@@ -887,9 +990,13 @@ class C19(Prop):
         return ch
 
     def _check_filter(self, i, key, terms, out, full, did, fail):
+        """what an artifact with filter `terms` hands out for `key` against the stored value `full` (data id `did`)"""
+        if not terms:       # an unfiltered artifact must hand out exactly what is stored
+            fail0 = fail
+            fail = lambda i, k, base, msg: fail0(i, k, "load-differs-from-written", msg)   # noqa: E731
         if out[0] == "data":
             if full["t"] != "json" or out[1] != ["d", did]:
-                fail(i, key, "filter-changes-data", f"filtered load returns {out[1]}, stored data {did}")
+                fail(i, key, "load-differs-from-written" if not terms else "filter-changes-data", f"load returns {out[1]}, stored data {did}")
             return
         got = out[1]
         if full["t"] == "json" or got["t"] != full["t"] or got["names"] != full["names"]:
@@ -922,16 +1029,25 @@ class C19(Prop):
         return (any(k in MUTATING and o == "ok" for k, o in outs) and any(o in ("err", "ctor-err") for _, o in outs)
                 and any(k in ("load", "fload") and o not in ("err", "ctor-err") for k, o in outs))
 
+
     def tags(self, case, obs):
         t = ["probe:" + case["probe"], f"len:{min(len(case['ops']) // 5 * 5, 25)}"]
         data = case["data"]
         listed = set()
         hist = []
+        acting = list(case.get("terms") or [])
+        t.append("acting:" + ("no-terms" if not acting else "draw-terms" if any(x[0] == "draws" for x in acting) else "row-terms"))
         for op, rec in zip(case["ops"], obs["ops"]):
             kind, out = op[0], rec["out"]
             ok = out not in ("err", "ctor-err")
+            if kind in ("write", "replace", "remove") and acting:
+                t.append(("ok:" if ok else "refused:") + kind + "-under-terms")
             t.append(("ok:" if ok else "refused:") + kind)
-            key = op[1] if len(op) > 1 else None
+            key = op[1] if len(op) > 1 and kind != "reopen" else None
+            if kind == "reopen":
+                t.append("reopen:" + ("no-terms" if not op[1] else "draw-terms" if any(x[0] == "draws" for x in op[1]) else "row-terms"))
+            if kind == "load" and ok and out[0] == "filtered" and acting:
+                t.append("acting-load:table-under-terms")
             if key is not None and kind != "fload":
                 t.append("key:malformed" if not well_formed(key) else ("key:keyspace-node" if key == KS else f"key:{len(parts(key))}-part"))
             if kind in ("write", "replace"):
@@ -965,6 +1081,8 @@ class C19(Prop):
                     t.append("nested-history")
                 hist.append(key)
             listed = set(rec["obs"]["keys"])
+            if kind == "reopen" and ok:
+                acting = list(op[1])
         if any(v == "err" for rec in obs["ops"] for v in rec["obs"]["loads"].values()):
             t.append("state:listed-key-not-loadable")
         if any(rec["obs"]["fresh"] == "err" for rec in obs["ops"]):
@@ -974,7 +1092,7 @@ class C19(Prop):
         return t
 
     def sample_view(self, case, obs):
-        return {"probe": case["probe"], "ops": [[*op[:2], (op[2] if len(op) > 2 and op[0] != "fload" else None)] for op in case["ops"][:8]],
+        return {"probe": case["probe"], "acting_terms": [render_term(x) for x in case.get("terms") or []], "ops": [[*op[:2], (op[2] if len(op) > 2 and op[0] != "fload" else None)] for op in case["ops"][:8]],
                 "outcomes": [rec["out"] if isinstance(rec["out"], str) else rec["out"][0] for rec in obs["ops"][:8]],
                 "final_keys": obs["ops"][-1]["obs"]["keys"] if obs["ops"] else obs["init"]["keys"]}
 
